@@ -507,6 +507,16 @@ def C13(ctx):
             if got[0] == "ok":
                 ctx.check("adjust: odd, only bit 0, idempotent", all(odd(b) for b in got[1]) and tools.adjust_key_parity(got[1]) == got[1],
                           f"adjust_key_parity(<{name}> of {hx(k)}) -> {hx(got[1])}")
+    # refusals: nothing is handed back for a master key of the wrong size
+    bad = []
+    for _ in range(ctx.n(60, 300)):
+        bk = g.badkey()
+        bad += [op_common_sk(bk, R.randbytes(8), gen="malformed", proj="class"), op_visa_sk(bk, R.randbytes(2), gen="malformed", proj="class"),
+                op_tree_sk(bk, R.randbytes(2), 8, 4, R.randbytes(16), gen="malformed", proj="class"),
+                op_tree_sk(g.key(), g.sized(2, .5), 8, 4, g.sized(16, .5), gen="malformed", proj="class"),
+                op_common_sk(g.key(), g.sized(8, .7), gen="malformed", proj="class"), op_visa_sk(g.key(), g.sized(2, .7), gen="malformed", proj="class"),
+                op_tree_sk(g.key(), R.randbytes(2), R.choice([1, 2, 4, 8]), R.choice([1, 2, 3, 4]), R.randbytes(16), gen="tree parameters around the gate", proj="class")]
+    ctx.run_cases(bad)
     # keys that force 0xFF / 0x00 / 0xFE bytes through the adjustment
     for v in (0xFF, 0x00, 0xFE, 0x01, 0x80, 0x7F):
         for pos in range(16):
